@@ -45,6 +45,8 @@ POSITIONS = [
     ('c-attr', 'C', 'attr={L}'),
     ('c-slots', 'C', '__slots__=({L},)'),
     ('c-doc-after', 'C', "'class doc'\nattr2={L}"),
+    ('c-user-A', 'C', "A='user A'\nattr3={L}"), ('c-user-_A', 'C', "_A='user _A'\nattr4={L}"), ('c-user-A-read', 'C', "A='user A'\nobs(A)\nattr5={L}"),
+    ('f-user-A', 'F', "A='user A'\nobs(A)\nf_v2={L}"), ('m-user-B', 'M', "B='user B'\nobs(B)\nm_v2={L}"),
     ('k-return', 'K', 'return {L}'),
     ('a-await', 'A', 'return {L}'),
 ]
